@@ -32,3 +32,77 @@ theorem refused_otherwise (E : Env) (alg : Alg) (secret : Bytes) (isOptions : Bo
   · repeat' (first | (simp [Shape]; done) | split)
 
 end C12
+
+namespace Ohkami.Jwt
+open Ohkami Ohkami.B64
+
+/-- **Completeness of admission**: every `Bearer h.p.s` with exactly three parts whose header (with `typ` / `cty` absent or "JWT") names the
+configured algorithm, whose claims admit `now`, and whose signature decodes to the MAC of `h.p` under the configured secret is admitted,
+and the handler sees the payload parsed from `p`. -/
+theorem admit_complete (E : Env) (alg : Alg) (secret v hp pp sp : Bytes) (hdr pl : Json) (p : Nat)
+    (hv : bearer.isPrefixOf v = true) (hs : splitDots (v.drop bearer.length) = [hp, pp, sp])
+    (hh : (E.b64urlDec hp).bind E.jsonParse = some hdr) (htyp : tagOk hdr.typ = true) (hcty : tagOk hdr.cty = true)
+    (halg : hdr.alg = some (some alg.str))
+    (hpl : (E.b64urlDec pp).bind E.jsonParse = some pl) (hc : claimsAdmit pl E.now)
+    (hsig : E.b64urlDec sp = some (E.mac alg secret (hp ++ [DOT] ++ pp))) (hfv : E.fromValue pl.payload = some p) :
+    verified E alg secret false (some v) = .admit p := by
+  obtain ⟨h1, h2, h3⟩ := hc
+  unfold verified
+  simp [hv, hs, hh, htyp, hcty, halg, hpl, h1, h2, h3, hsig, hfv]
+
+/-- **Issued tokens verify.**  Let `issue` build `b64(header) . b64(payload) . b64(mac)` for any header and payload texts; if the
+environment's decoder inverts its encoder on those three parts, the header text parses to a header naming the algorithm and the payload
+text parses to claims that admit `now`, the token is admitted with its payload — for every MAC function, secret and algorithm. -/
+theorem issue_verifies (E : Env) (alg : Alg) (secret : Bytes) (enc : Bytes → Bytes) (headerText payloadText : Bytes) (hdr pl : Json) (p : Nat)
+    (hdec : ∀ x, E.b64urlDec (enc x) = some x)
+    (hnodot : ∀ x, DOT ∉ enc x)
+    (hh : E.jsonParse headerText = some hdr) (htyp : tagOk hdr.typ = true) (hcty : tagOk hdr.cty = true) (halg : hdr.alg = some (some alg.str))
+    (hpl : E.jsonParse payloadText = some pl) (hc : claimsAdmit pl E.now) (hfv : E.fromValue pl.payload = some p) :
+    verified E alg secret false
+      (some (bearer ++ (enc headerText ++ [DOT] ++ enc payloadText ++ [DOT] ++ enc (E.mac alg secret (enc headerText ++ [DOT] ++ enc payloadText))))) = .admit p := by
+  have splitNoDot : ∀ (a : Bytes), DOT ∉ a → splitDots a = [a] := by
+    intro a
+    induction a with
+    | nil => intro _; rfl
+    | cons b t ih =>
+      intro h
+      have hb : b ≠ DOT := fun e => h (by simp [e])
+      simp [splitDots, ih (fun hm => h (List.mem_cons_of_mem _ hm)), hb]
+  have splitNe : ∀ (a : Bytes), splitDots a ≠ [] := by
+    intro a
+    cases a with
+    | nil => simp [splitDots]
+    | cons b t =>
+      simp only [splitDots]
+      cases splitDots t with
+      | nil => simp
+      | cons l ls => by_cases hb : b = DOT <;> simp [hb]
+  have splitApp : ∀ (a rest : Bytes), DOT ∉ a → splitDots (a ++ DOT :: rest) = a :: splitDots rest := by
+    intro a
+    induction a with
+    | nil =>
+      intro rest _
+      simp only [List.nil_append, splitDots]
+      cases hs : splitDots rest with
+      | nil => exact absurd hs (splitNe rest)
+      | cons l ls => simp
+    | cons b t ih =>
+      intro rest h
+      have hb : b ≠ DOT := fun e => h (by simp [e])
+      simp [splitDots, ih rest (fun hm => h (List.mem_cons_of_mem _ hm)), hb]
+  apply admit_complete E alg secret _ (enc headerText) (enc payloadText) (enc (E.mac alg secret (enc headerText ++ [DOT] ++ enc payloadText))) hdr pl p
+  · simp [bearer, List.isPrefixOf]
+  · have : (bearer ++ (enc headerText ++ [DOT] ++ enc payloadText ++ [DOT] ++ enc (E.mac alg secret (enc headerText ++ [DOT] ++ enc payloadText)))).drop bearer.length
+        = enc headerText ++ DOT :: (enc payloadText ++ DOT :: enc (E.mac alg secret (enc headerText ++ [DOT] ++ enc payloadText))) := by
+      simp [bearer]
+    rw [this, splitApp _ _ (hnodot _), splitApp _ _ (hnodot _), splitNoDot _ (hnodot _)]
+  · simp [hdec, hh]
+  · exact htyp
+  · exact hcty
+  · exact halg
+  · simp [hdec, hpl]
+  · exact hc
+  · simp [hdec]
+  · exact hfv
+
+end Ohkami.Jwt
